@@ -51,7 +51,7 @@ pub fn run(ctx: &Ctx) -> usize {
   };
   let days = special_days(&mut rng);
   let secs: [i64; 12] = [0, 1, 59, 60, 3599, 3600, 43199, 43200, 82800, 86340, 86398, 86399];
-  let scale = if ctx.quick() { 1 } else { 25 };
+  let scale = if ctx.quick() { 5 } else { 25 };
   // add
   for round in 0..(2500 * scale) {
     let j = if round % 2 == 0 { *rng.pick(&days) } else { rng.range(JDN_MIN, JDN_MAX) };
